@@ -808,6 +808,50 @@ def interrupted_by_exception(rec):
         R.count('conversion interrupted by an exception of the input')
 
 
+def slow_first_block(rec):
+    """the same conversion with the FIRST compression held back (a slow first block): whatever order the blocks then reach the
+    file in, every prefix of the recorded write sequence is a partial file like any other (a block written ahead of an earlier
+    one leaves a hole that must not read back as samples)"""
+    import seismic_zfp.conversion_utils as cu_
+    label, conv, final = rec['label'], rec['conv'], rec['final']
+    out = os.path.join(d, label + '.slowfirst.sgz')
+    real = cu_.zfpy
+    n_calls = [0]
+
+    def slow_compress(*a_, **k_):
+        n_calls[0] += 1
+        if n_calls[0] == 1:
+            time.sleep(0.4)
+        return real.compress_numpy(*a_, **k_)
+    cu_.zfpy = type('Z', (), {'compress_numpy': staticmethod(slow_compress), '__getattr__': lambda self, n_: getattr(real, n_)})()
+    try:
+        raw = record(out, lambda: conv(out))
+    finally:
+        cu_.zfpy = real
+    events = [(h, o, b) for (h, o, b) in raw if o >= 0]
+    got = open(out, 'rb').read()
+    os.remove(out)
+    inp0 = {'route': label, 'schedule': 'first compression held back 0.4 s'}
+    R.count('slow first block')
+    if got != final:
+        R.violation('oracle', inp0, 'the finished file differs from the one written without the delay')
+        return
+    hdr_final = final[:960] + final[980:8192]
+    n_state = {}
+    ops = [o for o in rec['ops'] if o[0] in ('read_inline', 'read_volume', 'get_trace', 'read_subplane', 'read_zslice')]
+    for k in range(1, len(events)):
+        b = replay(events[:k])
+        if b == final or hashlib.sha1(b).digest() in rec['digests']:
+            continue            # a state the program-order run already covered
+        L = len(b)
+        desc = {'history': 'slow first block', 'event': k, 'kind': 'S'}
+        for name, args in ops:
+            res, _ = do_op(b, name, args)
+            inp = {'route': label, 'state': desc, 'length': L, 'call': name, 'args': list(args), 'writes so far': [(o, len(x)) for _, o, x in events[:k]][-4:]}
+            R.case((label, 'slow-first', k, name, args), nontrivial=True)
+            judge(inp, desc, name, res, rec['want'][(name, args)], L >= 8192 and (b[:960] + b[980:8192]) == hdr_final, L >= 980 and b[960:980] == final[960:980], n_state)
+
+
 import itertools, re
 try:
     recs = []
@@ -816,6 +860,9 @@ try:
     for rt, rec in recs:
         if rec is not None and not rt[0].startswith('numpy'):
             interrupted_by_exception(rec)
+    for rt, rec in recs[:(3 if QUICK else len(recs))]:
+        if rec is not None:
+            slow_first_block(rec)
     R.notes.append(f'{sum(rec["n_states"] for rt, rec in recs if rec)} distinct crash states')
     pool = earlier_files(recs)
     for (label, kind, conv, twin, src), rec in recs:
